@@ -230,93 +230,144 @@ func ruleC05_2(c *Ctx) {
 	// over the per-step map itself, or a range over the complete list of its keys (collected by an exhaustive range
 	// over the map; possibly sorted), the element being looked up in the map; the tail keys[1:] is complete when the
 	// reference link is the one under keys[0].
-	loops, tailRefs := c.coverLoops(f, stepMap)
-	for _, tr := range tailRefs {
-		// keys[1:] is complete only against the reference under keys[0]
-		refOK := false
-		for _, call := range c.equalityCalls(f) {
-			for _, a := range call.Common().Args {
-				if tr.isFirst(a) {
-					refOK = true
-				}
-			}
-		}
-		c.check(refOK, R, fn, "the tail keys[1:] is compared with the link under keys[0]", tr.pos, "reference = linksPerStep[keys[0]]", "the compare loop skips the first key but the reference link is not the one under that key: one counted link is never compared")
-	}
 	nLoops := 0
-	for _, cl := range loops {
-		{
-			header := cl.header
-			isIter := cl.isElem
-			var eqM, eqP []*ssa.Call
+	compare := func(f *ssa.Function, stepMap ssa.Value, elems map[ssa.Value]bool) {
+		fn := fname(f)
+		// elems: parameters of a helper frame that were handed elements of the per-step map by the caller
+		fromStepMap := func(v ssa.Value) bool {
+			return derives(v, func(x ssa.Value) bool {
+				if elems[x] {
+					return true
+				}
+				switch y := x.(type) {
+				case *ssa.Range:
+					return y.X == stepMap
+				case *ssa.Lookup:
+					return y.X == stepMap
+				}
+				return false
+			}, true)
+		}
+		loops, tailRefs := c.coverLoops(f, stepMap)
+		for _, tr := range tailRefs {
+			// keys[1:] is complete only against the reference under keys[0]
+			refOK := false
 			for _, call := range c.equalityCalls(f) {
-				cc := call.(*ssa.Call)
-				if !header.Dominates(cc.Block()) || !reaches(cc.Block(), header) {
-					continue
-				}
-				a0, a1 := org(cc.Call.Args[0]), org(cc.Call.Args[1])
-				d0 := isIter(cc.Call.Args[0])
-				d1 := isIter(cc.Call.Args[1])
-				r0, r1 := fromStepMap(cc.Call.Args[0]), fromStepMap(cc.Call.Args[1])
-				if !((d0 && r1) || (d1 && r0)) {
-					continue
-				}
-				if strings.HasSuffix(a0, ".(in_toto.Link).Materials") && strings.HasSuffix(a1, ".(in_toto.Link).Materials") {
-					eqM = append(eqM, cc)
-				}
-				if strings.HasSuffix(a0, ".(in_toto.Link).Products") && strings.HasSuffix(a1, ".(in_toto.Link).Products") {
-					eqP = append(eqP, cc)
+				for _, a := range call.Common().Args {
+					if tr.isFirst(a) {
+						refOK = true
+					}
 				}
 			}
-			if len(eqM) == 0 && len(eqP) == 0 {
-				continue // pick-reference loop, not the compare loop
-			}
-			nLoops++
-			// latches: predecessors of the header inside the loop
-			for _, pb := range header.Preds {
-				if !header.Dominates(pb) {
-					continue
+			c.check(refOK, R, fn, "the tail keys[1:] is compared with the link under keys[0]", tr.pos, "reference = linksPerStep[keys[0]]", "the compare loop skips the first key but the reference link is not the one under that key: one counted link is never compared")
+		}
+		for _, cl := range loops {
+			{
+				header := cl.header
+				isIter := cl.isElem
+				var eqM, eqP []*ssa.Call
+				for _, call := range c.equalityCalls(f) {
+					cc := call.(*ssa.Call)
+					if !header.Dominates(cc.Block()) || !reaches(cc.Block(), header) {
+						continue
+					}
+					a0, a1 := org(cc.Call.Args[0]), org(cc.Call.Args[1])
+					d0 := isIter(cc.Call.Args[0])
+					d1 := isIter(cc.Call.Args[1])
+					r0, r1 := fromStepMap(cc.Call.Args[0]), fromStepMap(cc.Call.Args[1])
+					if !((d0 && r1) || (d1 && r0)) {
+						continue
+					}
+					if strings.HasSuffix(a0, ".(in_toto.Link).Materials") && strings.HasSuffix(a1, ".(in_toto.Link).Materials") {
+						eqM = append(eqM, cc)
+					}
+					if strings.HasSuffix(a0, ".(in_toto.Link).Products") && strings.HasSuffix(a1, ".(in_toto.Link).Products") {
+						eqP = append(eqP, cc)
+					}
 				}
-				holds := func(calls []*ssa.Call) bool {
-					for _, cc := range calls {
-						if c.condAt(cc, true, pb) {
-							return true
-						}
-						// fact may be established on the edge pb->header itself
-						if len(pb.Instrs) > 0 {
-							if ifi, ok := pb.Instrs[len(pb.Instrs)-1].(*ssa.If); ok {
-								val := pb.Succs[0] == header
-								v := ifi.Cond
-								neg := false
-								for {
-									u, ok := v.(*ssa.UnOp)
-									if !ok || u.Op != token.NOT {
-										break
+				if len(eqM) == 0 && len(eqP) == 0 {
+					continue // pick-reference loop, not the compare loop
+				}
+				nLoops++
+				// latches: predecessors of the header inside the loop
+				for _, pb := range header.Preds {
+					if !header.Dominates(pb) {
+						continue
+					}
+					holds := func(calls []*ssa.Call) bool {
+						for _, cc := range calls {
+							if c.condAt(cc, true, pb) {
+								return true
+							}
+							// fact may be established on the edge pb->header itself
+							if len(pb.Instrs) > 0 {
+								if ifi, ok := pb.Instrs[len(pb.Instrs)-1].(*ssa.If); ok {
+									val := pb.Succs[0] == header
+									v := ifi.Cond
+									neg := false
+									for {
+										u, ok := v.(*ssa.UnOp)
+										if !ok || u.Op != token.NOT {
+											break
+										}
+										v, neg = u.X, !neg
 									}
-									v, neg = u.X, !neg
-								}
-								if v == ssa.Value(cc) && (val != neg) {
-									return true
+									if v == ssa.Value(cc) && (val != neg) {
+										return true
+									}
 								}
 							}
 						}
+						return false
 					}
-					return false
+					c.check(holds(eqM), R, fn, "materials equal on every path to the latch", instrPos(pb.Instrs[0]), "DeepEqual(link.Materials, ref.Materials) known true at the back edge", "the loop continues on a path where the iterated link's Materials were not found equal to the reference's")
+					c.check(holds(eqP), R, fn, "products equal on every path to the latch", instrPos(pb.Instrs[0]), "DeepEqual(link.Products, ref.Products) known true at the back edge", "the loop continues on a path where the iterated link's Products were not found equal to the reference's")
 				}
-				c.check(holds(eqM), R, fn, "materials equal on every path to the latch", instrPos(pb.Instrs[0]), "DeepEqual(link.Materials, ref.Materials) known true at the back edge", "the loop continues on a path where the iterated link's Materials were not found equal to the reference's")
-				c.check(holds(eqP), R, fn, "products equal on every path to the latch", instrPos(pb.Instrs[0]), "DeepEqual(link.Products, ref.Products) known true at the back edge", "the loop continues on a path where the iterated link's Products were not found equal to the reference's")
+				// mismatch sides fail
+				for _, cc := range append(append([]*ssa.Call{}, eqM...), eqP...) {
+					okF := false
+					for _, cu := range condUsers(cc, false) {
+						if c.failing(branchTaken(cu, false)) {
+							okF = true
+						}
+					}
+					c.check(okF, R, fn, "mismatch fails: "+short(org(cc.Call.Args[0])[strings.LastIndex(org(cc.Call.Args[0]), ".")+1:]), cc.Pos(), "false side of DeepEqual is a failing continuation", "a mismatch between counted links does not fail")
+				}
+				// the loop is not left early with success: nil-error returns lie after loop exhaustion of this range
 			}
-			// mismatch sides fail
-			for _, cc := range append(append([]*ssa.Call{}, eqM...), eqP...) {
-				okF := false
-				for _, cu := range condUsers(cc, false) {
-					if c.failing(branchTaken(cu, false)) {
-						okF = true
+		}
+	}
+	compare(f, stepMap, nil)
+	if nLoops == 0 {
+		// the compare loop may live in an unexported helper that is handed the per-step map; its error must fail the
+		// reduction
+		for _, call := range allCalls(f) {
+			h := call.Common().StaticCallee()
+			if h == nil || h.Blocks == nil || h.Pkg != f.Pkg || (h.Object() != nil && h.Object().Exported()) {
+				continue
+			}
+			for j, a := range call.Common().Args {
+				if resolve(a, call) != stepMap || j >= len(h.Params) {
+					continue
+				}
+				before := nLoops
+				elems := map[ssa.Value]bool{}
+				for k, ak := range call.Common().Args {
+					if k != j && k < len(h.Params) && fromStepMap(ak) {
+						elems[h.Params[k]] = true
 					}
 				}
-				c.check(okF, R, fn, "mismatch fails: "+short(org(cc.Call.Args[0])[strings.LastIndex(org(cc.Call.Args[0]), ".")+1:]), cc.Pos(), "false side of DeepEqual is a failing continuation", "a mismatch between counted links does not fail")
+				compare(h, h.Params[j], elems)
+				if nLoops > before {
+					okFail := false
+					if e := errResult(call); e != nil {
+						for _, br := range errBranches(e) {
+							okFail = okFail || c.failing(br.NonNil)
+						}
+					}
+					c.check(okFail, R, fn, "a disagreement found by "+fname(h)+" fails the reduction", call.Pos(), "non-nil side is a failing continuation", "the error of the helper that compares the counted links is not propagated")
+				}
 			}
-			// the loop is not left early with success: nil-error returns lie after loop exhaustion of this range
 		}
 	}
 	if nLoops == 0 {
